@@ -416,65 +416,16 @@ static void parse_opts(int argc, char **argv, int from, struct reftable_write_op
 	}
 }
 
-int main(int argc, char **argv)
+/* applies the transactions of txnfile through the stack API, then the trailing words
+   argv[from..] (compactall | expire=<time>,<min> | clean). Returns 0 or 3 (error printed). */
+static int apply_txns(struct reftable_stack *st, const char *txnfile, int argc, char **argv, int from)
 {
-	if (argc < 3) {
-		fprintf(stderr, "usage: driver query-table FILE QUERIES | write-table RECORDS OUT opts.. | query-stack DIR QUERIES opts.. | stack-apply DIR TXNS opts..\n");
-		return 2;
-	}
-	if (!strcmp(argv[1], "query-table")) {
-		struct reftable_reader *rd = open_reader(argv[2]);
-		printf("LIMITS %" PRIu64 " %" PRIu64 "\n", reftable_reader_min_update_index(rd), reftable_reader_max_update_index(rd));
-		run_queries(rd, NULL, argv[3]);
-		reftable_reader_free(rd);
-		printf("OK\n");
-		return 0;
-	}
-	if (!strcmp(argv[1], "write-table")) {
-		struct reftable_write_options opts;
-		struct rec_file rf = { NULL };
-		struct reftable_writer *w;
-		int fd, err;
-		parse_opts(argc, argv, 4, &opts, &rf);
-		rf.f = fopen(argv[2], "r");
-		if (!rf.f)
-			die("open records", -errno);
-		fd = open(argv[3], O_CREAT | O_TRUNC | O_WRONLY, 0644);
-		if (fd < 0)
-			die("open out", -errno);
-		w = reftable_new_writer(fd_write, &fd, &opts);
-		err = write_records(w, &rf);
-		if (err < 0) {
-			printf("REJECTED %d %s\n", err, reftable_error_str(err));
-			return 0;
-		}
-		err = reftable_writer_close(w);
-		close(fd);
-		if (err == REFTABLE_EMPTY_TABLE_ERROR) {
-			printf("EMPTY\n");
-			return 0;
-		}
-		if (err < 0) {
-			printf("REJECTED %d %s\n", err, reftable_error_str(err));
-			return 0;
-		}
-		reftable_writer_free(w);
-		printf("OK\n");
-		return 0;
-	}
-	if (!strcmp(argv[1], "query-stack") || !strcmp(argv[1], "stack-apply")) {
-		struct reftable_write_options opts;
-		struct reftable_stack *st = NULL;
-		int err;
-		parse_opts(argc, argv, 4, &opts, NULL);
-		err = reftable_new_stack(&st, argv[2], opts);
-		if (err < 0)
-			die("new_stack", err);
-		if (!strcmp(argv[1], "stack-apply")) {
+	int err;
+	{
 			struct rec_file rf = { NULL };
-			rf.f = fopen(argv[3], "r");
+			rf.f = fopen(txnfile, "r");
 			if (!rf.f)
-				die("open txns", -errno);
+				{ printf("ERROR open txns\n"); return 3; }
 			rf.stop_at_sep = 1;
 			while (!rf.eof) {
 				/* "T <update index>": one transaction through reftable_stack_add;
@@ -539,7 +490,7 @@ int main(int argc, char **argv)
 				/* trailing words: compactall | expire=<time>,<min update index> (a compact_all
 				   with that expiry) | clean */
 				int a;
-				for (a = 4; a < argc; a++) {
+				for (a = from; a < argc; a++) {
 					if (!strcmp(argv[a], "compactall")) {
 						err = reftable_stack_compact_all(st, NULL);
 						if (err < 0) {
@@ -566,6 +517,116 @@ int main(int argc, char **argv)
 				}
 			}
 			fclose(rf.f);
+	}
+	return 0;
+}
+
+int main(int argc, char **argv)
+{
+	if (argc < 3) {
+		fprintf(stderr, "usage: driver query-table FILE QUERIES | write-table RECORDS OUT opts.. | query-stack DIR QUERIES opts.. | stack-apply DIR TXNS opts..\n");
+		return 2;
+	}
+	if (!strcmp(argv[1], "query-table")) {
+		struct reftable_reader *rd = open_reader(argv[2]);
+		printf("LIMITS %" PRIu64 " %" PRIu64 "\n", reftable_reader_min_update_index(rd), reftable_reader_max_update_index(rd));
+		run_queries(rd, NULL, argv[3]);
+		reftable_reader_free(rd);
+		printf("OK\n");
+		return 0;
+	}
+	if (!strcmp(argv[1], "write-table")) {
+		struct reftable_write_options opts;
+		struct rec_file rf = { NULL };
+		struct reftable_writer *w;
+		int fd, err;
+		parse_opts(argc, argv, 4, &opts, &rf);
+		rf.f = fopen(argv[2], "r");
+		if (!rf.f)
+			die("open records", -errno);
+		fd = open(argv[3], O_CREAT | O_TRUNC | O_WRONLY, 0644);
+		if (fd < 0)
+			die("open out", -errno);
+		w = reftable_new_writer(fd_write, &fd, &opts);
+		err = write_records(w, &rf);
+		if (err < 0) {
+			printf("REJECTED %d %s\n", err, reftable_error_str(err));
+			return 0;
+		}
+		err = reftable_writer_close(w);
+		close(fd);
+		if (err == REFTABLE_EMPTY_TABLE_ERROR) {
+			printf("EMPTY\n");
+			return 0;
+		}
+		if (err < 0) {
+			printf("REJECTED %d %s\n", err, reftable_error_str(err));
+			return 0;
+		}
+		reftable_writer_free(w);
+		printf("OK\n");
+		return 0;
+	}
+	if (!strcmp(argv[1], "stack-session")) {
+		/* a long-lived C handle: commands on stdin, one per line:
+		   reload | query <file> | apply <txnfile> [words..] | next | quit.
+		   Every answer ends with a line "." */
+		struct reftable_write_options opts;
+		struct reftable_stack *st = NULL;
+		char *line = NULL;
+		size_t cap = 0;
+		int err;
+		parse_opts(argc, argv, 3, &opts, NULL);
+		err = reftable_new_stack(&st, argv[2], opts);
+		if (err < 0)
+			die("new_stack", err);
+		hash_size = opts.hash_id == SHA256_ID ? 32 : 20;
+		printf("OPENED\n.\n");
+		fflush(stdout);
+		while (getline(&line, &cap, stdin) > 0) {
+			char *w[8];
+			int nw = 0;
+			char *p;
+			size_t l = strlen(line);
+			if (l && line[l - 1] == '\n')
+				line[l - 1] = 0;
+			for (p = strtok(line, " "); p && nw < 8; p = strtok(NULL, " "))
+				w[nw++] = p;
+			if (!nw)
+				continue;
+			if (!strcmp(w[0], "quit"))
+				break;
+			if (!strcmp(w[0], "reload")) {
+				err = reftable_stack_reload(st);
+				printf("RELOADED %d\n", err);
+			} else if (!strcmp(w[0], "next")) {
+				printf("NEXT %" PRIu64 "\n", reftable_stack_next_update_index(st));
+			} else if (!strcmp(w[0], "query") && nw > 1) {
+				query_stack = st;
+				run_queries(NULL, reftable_stack_merged_table(st), w[1]);
+				printf("OK\n");
+			} else if (!strcmp(w[0], "apply") && nw > 1) {
+				if (!apply_txns(st, w[1], nw, w, 2))
+					printf("OK\n");
+			}
+			printf(".\n");
+			fflush(stdout);
+		}
+		free(line);
+		reftable_stack_destroy(st);
+		return 0;
+	}
+	if (!strcmp(argv[1], "query-stack") || !strcmp(argv[1], "stack-apply")) {
+		struct reftable_write_options opts;
+		struct reftable_stack *st = NULL;
+		int err;
+		parse_opts(argc, argv, 4, &opts, NULL);
+		err = reftable_new_stack(&st, argv[2], opts);
+		if (err < 0)
+			die("new_stack", err);
+		if (!strcmp(argv[1], "stack-apply")) {
+			if (apply_txns(st, argv[3], argc, argv, 4))
+				return 3;
 		} else {
 			struct reftable_merged_table *mt = reftable_stack_merged_table(st);
 			hash_size = opts.hash_id == SHA256_ID ? 32 : 20;
